@@ -189,11 +189,19 @@ async def _agen():
 def runtime_objects(rnd, n):
     """Objects of the interpreter's own classes that merely resemble something the inference has a rule for: an async
     generator object is not a generator (and not an Iterator); alone, nested, next to real generators"""
+    import types as _types
+
+    class _Slotted:
+        __slots__ = ("x",)
     out = []
     for _ in range(n):
         a = _agen()
         g = (i for i in range(2))
         vs = rnd.choice([[a], [[a]], [a, 1], [(a, 1)], [{"k": a}], [a, g], [{a}], [[a], [g]]])
+        out.append((rnd.choice([0, 3]), vs))
+        # attribute descriptors are not callables; a mappingproxy is not a dict (with str keys it must not become a TypedDict)
+        d = rnd.choice([int.real, _Slotted.x, _types.MappingProxyType({"a": 1}), _types.MappingProxyType({}), _Slotted.__dict__])
+        vs = rnd.choice([[d], [[d]], [d, len], [(d, 1)], [{"k": d}], [d, {"a": 1}], [[d], [{"a": 1}]]])
         out.append((rnd.choice([0, 3]), vs))
     return out
 
